@@ -147,15 +147,17 @@ func (c18) Gen(seed int64, tier string, avoid []string) *Plan {
 }
 
 type c18Model struct {
-	min       int
-	buf       map[uint16][]*rtp.Packet
-	count     int
-	started   int // 0 no, 1 yes, 2 unknown (after Clear(true))
-	heads     map[uint16]bool
-	anyHead   bool
-	returned  map[*rtp.Packet]bool
-	firstSeq  uint16
-	haveFirst bool
+	min          int
+	buf          map[uint16][]*rtp.Packet
+	count        int
+	started      int // 0 no, 1 yes, 2 unknown (after Clear(true))
+	heads        map[uint16]bool
+	anyHead      bool
+	ready        bool // playback has started at least once
+	headExplicit bool // the head was last set by SetPlayoutHead
+	returned     map[*rtp.Packet]bool
+	firstSeq     uint16
+	haveFirst    bool
 }
 
 func (m *c18Model) has(seq uint16) bool { return len(m.buf[seq]) > 0 }
@@ -225,6 +227,9 @@ func (c18) Run(e *Env) {
 	for i, o := range ops {
 		simrt.SleepUntil(us(o.AtUs))
 		e.Check()
+		if m.started == 1 {
+			m.ready = true
+		}
 		switch o.K {
 		case "push":
 			pkt := &rtp.Packet{Header: rtp.Header{Version: 2, SequenceNumber: o.Seq, Timestamp: o.TS, SSRC: 77}, Payload: make([]byte, o.Len)}
@@ -236,8 +241,16 @@ func (c18) Run(e *Env) {
 			m.count++
 			if !m.haveFirst {
 				m.haveFirst, m.firstSeq = true, o.Seq
-				if m.started == 0 && !m.anyHead {
-					m.heads = map[uint16]bool{o.Seq: true}
+				if m.started != 1 && !m.anyHead {
+					// the first packet into an empty buffer that is not playing.  The statement does not say
+					// whether it re-initialises the playout head when the head was set explicitly before, or
+					// when playback had already started once: the library does the former only if playback has
+					// never started; both outcomes are acceptable here.
+					if m.ready || m.headExplicit {
+						m.heads[o.Seq] = true
+					} else {
+						m.heads = map[uint16]bool{o.Seq: true}
+					}
 				}
 			}
 			if m.started == 0 && m.count >= m.min {
@@ -271,6 +284,7 @@ func (c18) Run(e *Env) {
 				}
 				e.Probe("pop_ok")
 				m.anyHead = false
+				m.headExplicit = false
 				m.heads = map[uint16]bool{p.SequenceNumber + 1: true}
 			} else {
 				if errors.Is(err, jitterbuffer.ErrPopWhileBuffering) {
@@ -357,6 +371,7 @@ func (c18) Run(e *Env) {
 			jb.SetPlayoutHead(o.Seq)
 			m.heads = map[uint16]bool{o.Seq: true}
 			m.anyHead = false
+			m.headExplicit = true
 			if got := jb.PlayoutHead(); got != o.Seq {
 				viol("sethead", "op %d: PlayoutHead() = %d after SetPlayoutHead(%d)", i, got, o.Seq)
 			}
